@@ -26,8 +26,10 @@
     Sorting.  [Less] is "path order when the two entries overlap in time, else by time",
     which is not a strict weak order, so the result of [sort.Sort] depends on the algorithm.
     Go's pdqsort uses plain insertion sort for n <= 12 ([insertionSort] in sort/zsortinterface.go);
-    [sort_locs] is that insertion sort.  More than 12 locations are OUTSIDE this model
-    (the correspondence generator never produces them and says so).
+    [sort_locs] is that insertion sort.  With more than 12 locations Go switches to pdqsort, which
+    is NOT mirrored: there the judge runs the cursor mirror on the order the real sort produced
+    ([q_order], read through the verif-only accessor [KeyCursor.VerifSeeks]; [run_cursor_on]), and that
+    regime is where the real cursor violates newest-wins (Props/C06.v [C06_over_12_locations_refuted]).
 
     No proofs in this file. *)
 From Verif Require Import Base.Prelude Model.C37.
